@@ -38,7 +38,8 @@ LEVEL_TEXT = ("Exploration: thousands of collinear trees (chains of 2-40 nodes, 
               " One layout in three is expressed in another length unit (x 1e-3, 1e-2, 1e2, 1e3)."
               " Levels are also numpy integers / 0-d arrays; a failing get_volume call on an un-rebased table precedes a third of the measurements."
               " Trees derived by the library from used ones (levels 1-2); lines exactly along lattice diagonals."
-              " Feature requests in tuple / list / dict spellings.")
+              " Feature requests in tuple / list / dict spellings."
+              " Pointed roots and inner nodes (radius exactly 0).")
 LEVEL_NOTE = ("Levels 5-9 on a root with two opposite arms run the library's sampled "
               "cone-cone term (identically zero there); only a few such cases run per shard because "
               "each costs seconds. Tolerance rtol 2e-4 (the library accumulates in float32). "
